@@ -206,9 +206,34 @@ func runC05(c *Ctx) {
 				continue
 			}
 			cons := fmt.Sprintf("%s: no-reconnect option nils the dial factory", fname(u.Fn))
-			ph, ok := u.Val.(*ssa.Phi)
 			found := false
-			if ok {
+			// the stored value, or — when a dial helper hands the factory back — what that helper returns there
+			cands := []ssa.Value{u.Val}
+			{
+				var call *ssa.Call
+				idx := 0
+				switch x := u.Val.(type) {
+				case *ssa.Extract:
+					call, _ = x.Tuple.(*ssa.Call)
+					idx = x.Index
+				case *ssa.Call:
+					call = x
+				}
+				if call != nil {
+					if hg := staticCallee(call); hg != nil && p.allFns[hg] {
+						allInstrs(hg, func(y ssa.Instruction) {
+							if rt, ok := y.(*ssa.Return); ok && idx < len(rt.Results) {
+								cands = append(cands, rt.Results[idx])
+							}
+						})
+					}
+				}
+			}
+			for _, cand := range cands {
+				ph, ok := cand.(*ssa.Phi)
+				if !ok {
+					continue
+				}
 				for i, e := range ph.Edges {
 					if !isNilConst(e) {
 						continue
